@@ -12,6 +12,7 @@ import (
 	"log/slog"
 	"os"
 	"path/filepath"
+	"runtime"
 	"strings"
 	"sync"
 	"sync/atomic"
@@ -437,6 +438,9 @@ func main() {
 					if cnt := e.ActiveSessions(); max > 0 && cnt > max {
 						atomic.StoreInt64(&over, int64(cnt))
 					}
+					for k := 0; k < 20; k++ { // hold the slot for a moment: an over-admission stays visible
+						runtime.Gosched()
+					}
 					atomic.AddInt64(&live, -1)
 					e.ReleaseSession()
 				}
@@ -777,7 +781,7 @@ func main() {
 	commands := []string{"ls", "echo", "LS", "ls ", " ls", "/bin/ls", "./ls", "bin\\ls", "*", "", "\xc3\xa9", "l\x00s", "ls\n", "ls;id", "whoami", "l", "lsx", "../ls", "ls/", "\\ls"}
 	argAlphabet := []string{"a", "-l", "x y", ".", "..", "/", "\\", ";", "&", "|", "$", "`", "(", ")", "{", "}", "[", "]", "<", ">", "!", "*", "?", "~",
 		"\x00", "\xc3\xa9", "\xff", "\n", "'", "\"", "#", "=", ",", "%", "^", ":", "@", "+", "-", "_", "\t", " "}
-	argWords := []string{"", "--", "-- ;", "file.txt", "-la", "--color=auto", "/etc/passwd", "/", "./x", "../x", "-f/etc/passwd", "--file=/etc/shadow", "a b", "$(id)", "`id`", "a;b", "a|b", "a&b",
+	argWords := []string{"", "--", "-- ;", ";=x", "a;b=c", "$(id)=1", "`id`=x", "a|b=--c", "/etc/passwd=x", "/abs=rel", "x=;", "k=/abs", "=", "==;", "file.txt", "-la", "--color=auto", "/etc/passwd", "/", "./x", "../x", "-f/etc/passwd", "--file=/etc/shadow", "a b", "$(id)", "`id`", "a;b", "a|b", "a&b",
 		"a>b", "a<b", "{a,b}", "[ab]", "a*", "a?", "~root", "!!", "a\\b", "caf\xc3\xa9", "a\x00b", "a\nb", "'q'", "\"q\"", "#c", "C:\\x", "\\\\srv\\share", " /abs", "x/", "//x"}
 	genArg := func() string {
 		if c.Rand.Chance(1, 2) {
@@ -938,9 +942,14 @@ func main() {
 			runSeq(s)
 		}
 		// 4. concurrent storms
-		nst := c.N(40, 400)
+		nst := c.N(30, 300)
 		for i := 0; i < nst; i++ {
 			storm(c.Rand.Pick(0, 1, 1, 2, 3, 5), c.Rand.Pick(2, 4, 8, 16), c.Rand.Pick(10, 50, 200))
+		}
+		// many more clients than processors: a check and an increment that are not one critical
+		// section only come apart when a client is descheduled between them
+		for i := 0; i < c.N(6, 40); i++ {
+			storm(c.Rand.Pick(1, 1, 2), 256, 300)
 		}
 		// 4a. failing starts while a session is held
 		for _, mx := range []int{1, 2, 3} {
